@@ -2069,7 +2069,17 @@ public:
     template<class Event>
     struct process_fsm_internal_table
     {
-        typedef typename ::boost::mpl::has_key<processable_events_internal_table,Event>::type is_event_processable;
+        // the event is processable if a row of the internal table is triggered by its type, by a base of it or by a kleene event
+        typedef typename ::boost::mpl::not_<
+            typename ::boost::is_same<
+                typename ::boost::mpl::find_if<
+                    processable_events_internal_table,
+                    ::boost::mpl::or_<
+                        ::boost::is_base_of< ::boost::mpl::placeholders::_1,Event>,
+                        ::boost::msm::is_kleene_event< ::boost::mpl::placeholders::_1> > >::type,
+                typename ::boost::mpl::end<processable_events_internal_table>::type
+            >::type
+        >::type is_event_processable;
 
         // forward to the correct do_process
         static void process(Event const& evt,library_sm* self_,HandledEnum& result)
